@@ -309,8 +309,8 @@ def acceptStorage (d : Deployment) (now : Clock) (r : Option Row) (user : Str) (
       | .error e => .error e
       | .ok () =>
         if gStr r.jws.claims .sub != user then .error .subject
-        else if gInt r.jws.claims .exp < now.sec then .error .expired
         else if gInt r.jws.claims .dataType != ty then .error .dtype
+        else if gInt r.jws.claims .exp < now.sec then .error .expired
         else .ok (gStr r.jws.claims .data)
 
 /-- `GetSigned` as found in the pinned tree: neither the signed `exp` nor the signed `data_type` is looked at -/
